@@ -86,6 +86,36 @@ inline void build(const std::string& args, Case& c) {
   } else {
     c.spec = c.m2c.spec_lines;
   }
+  if (i < w.size()) {   // space group by table row, with a cell its crystal system allows
+    long long row = hv::to_ll(nx());
+    if (row < 0) {        // -k: the k-th tabulated setting with a rhombohedral lattice (R ...:H and R ...:R)
+      long long k = -row, n = 0;
+      row = 0;
+      for (const gemmi::SpaceGroup& g : gemmi::spacegroup_tables::main)
+        if (g.hm[0] == 'R' && ++n == k) { row = &g - gemmi::spacegroup_tables::main; break; }
+    }
+    const gemmi::SpaceGroup& sg = gemmi::spacegroup_tables::main[row];
+    m.set_spacegroup(&sg);
+    switch (sg.crystal_system()) {
+      case gemmi::CrystalSystem::Triclinic: m.cell.set(50.25, 60.5, 70.125, 81, 97, 103); break;
+      case gemmi::CrystalSystem::Monoclinic:
+        switch (sg.monoclinic_unique_axis()) {
+          case 'a': m.cell.set(50.25, 60.5, 70.125, 101, 90, 90); break;
+          case 'c': m.cell.set(50.25, 60.5, 70.125, 90, 90, 101); break;
+          default: m.cell.set(50.25, 60.5, 70.125, 90, 101, 90);
+        }
+        break;
+      case gemmi::CrystalSystem::Orthorhombic: break;
+      case gemmi::CrystalSystem::Tetragonal: m.cell.set(60.5, 60.5, 70.125, 90, 90, 90); break;
+      case gemmi::CrystalSystem::Trigonal:
+        if (sg.ext == 'R') { m.cell.set(60.5, 60.5, 60.5, 75.5, 75.5, 75.5); break; }
+        // fall through
+      case gemmi::CrystalSystem::Hexagonal: m.cell.set(60.5, 60.5, 70.125, 90, 90, 120); break;
+      case gemmi::CrystalSystem::Cubic: m.cell.set(60.5, 60.5, 60.5, 90, 90, 90); break;
+    }
+    m.cell.set_cell_images_from_spacegroup(&sg);
+    for (gemmi::Mtz::Dataset& d : m.datasets) d.cell = m.cell;
+  }
   CRng r(seed);
   size_t nc = m.columns.size();
   m.nreflections = nrefl;
@@ -145,6 +175,8 @@ inline std::string o_conv(const std::string& args) {
   Case c;
   build(args, c);
   const gemmi::Mtz& m = c.mtz;
+  // the mmCIF carries the PDB-style Hermann-Mauguin name: settings it cannot tell apart are outside the property
+  if (gemmi::find_spacegroup_by_name(m.spacegroup->pdb_name(), m.cell.alpha, m.cell.gamma) != m.spacegroup) return "skip";
   std::ostringstream os;
   try {
     c.m2c.write_cif(m, nullptr, nullptr, os);
